@@ -87,10 +87,13 @@ def hot(recipe):
 def check_roundtrip(ctx, recipes, order, indent, pieces):
     """order: indexes into recipes (duplicates allowed); pieces: len(order)+1 surrounding texts."""
     wit = {"deps": recipes, "order": order, "indent": indent, "pieces": pieces}
+    # `indent` may be one value or one value per dependency (the same dependency serialised with different
+    # indents gives different serialisations, each of which must be recovered)
+    indents = indent if isinstance(indent, list) else [indent] * len(recipes)
     deps = [gen.build(r) for r in recipes]
     sers = []
-    for d in deps:
-        s = serialise(d, indent)
+    for d, ind in zip(deps, indents):
+        s = serialise(d, ind)
         sers.append(s)
         ctx.count("oracle.endtag_scan")
         if not (s.startswith(PREFIX) and s.endswith("</script>")):
@@ -277,6 +280,19 @@ def run(ctx):
         if rng.random() < 0.3:
             pieces[rng.randrange(len(pieces))] = ""
         indent = rng.choice([None, None, 0, 1, 2, 4, 8])
+        r = rng.random()
+        if r < 0.2:
+            # the same dependency several times, serialised with different indents
+            recipes = [recipes[0]] * n
+            indent = [rng.choice([None, 0, 1, 2, 4]) for _ in range(n)]
+        elif r < 0.35 and n >= 2:
+            # two dependencies that differ only by whitespace inside a field
+            import copy as _c
+            recipes[1] = _c.deepcopy(recipes[0])
+            recipes[0]["name"] = "my lib"
+            recipes[1]["name"] = rng.choice(["mylib", "my  lib", "my\tlib", "my lib "])
+            order = [0, 1] + order
+            pieces = ["<p>w%d;</p>" % k for k in range(2)] + pieces
         ctx.guard(check_roundtrip, ctx, recipes, order, indent, pieces, witness={"deps": recipes, "order": order, "indent": indent, "pieces": pieces})
         ctx.case((recipes, order, indent, pieces), nontrivial=any(hot(r) for r in recipes))
         ctx.state("copies_x_distinct", (len(order), len(set(order))))
